@@ -202,8 +202,10 @@ fn classify_death(status: Option<std::process::ExitStatus>, tail: &str) -> (Stri
     use std::os::unix::process::ExitStatusExt;
     let sig = status.and_then(|s| s.signal());
     if tail.contains("VERIF-ALLOC") {
+        // same signature as the in-process allocation record: the process merely did not survive
         let line = tail.lines().rev().find(|l| l.contains("VERIF-ALLOC")).unwrap_or("");
-        return ("alloc-abort".into(), line.to_string());
+        let kind = if line.contains("growth=1") { "alloc|growth" } else { "alloc|request" };
+        return (kind.into(), line.to_string());
     }
     if tail.contains("has overflowed its stack") {
         return ("stack-overflow".into(), "stack overflow".into());
@@ -244,7 +246,7 @@ fn death_result(seed: u64, prop: &str, kind: &str, entry: &str, frame: &str, det
     RunResult {
         seed,
         violation: Some(Violation {
-            sig: format!("{}|{}|{}|{}", prop, kind, entry, frame),
+            sig: format!("{}|{}|{}", prop, kind, frame),
             msg: format!("worker died ({}) during {}: {}", kind, entry, detail),
         }),
         ..Default::default()
